@@ -65,7 +65,7 @@ MUTANTS = [
     ("c13-fork-threshold", "C13", L, "            theshold: int = 1 if is_endpoint else 2", "            theshold: int = 1 if idx == 0 else 2"),
     ("c14-sortkey", "C14", UT, "key=lambda x: (max(x), x if x[0] % 2 == 0 else x[::-1])", "key=lambda x: (max(x), x if x[1] % 2 == 0 else x[::-1])"),
     ("c14-no-negative-check", "C14", MT, "            if any(token_id < 0 for token_id in token_ids):", "            if any(token_id < -4096 for token_id in token_ids):"),
-    ("c15-distance-alone-valid", "C15", MT, "            if len(self.step_tokenizers) == 1 and isinstance(\n                self.step_tokenizers[0], StepTokenizers.Distance\n            ):", "            if len(self.step_tokenizers) == 0:"),
+    ("c15-forks-marked-unsupported", "C15", MT, "    @serializable_dataclass(frozen=True, kw_only=True)\n    class Forks(_StepSize):", "    @serializable_dataclass(frozen=True, kw_only=True)\n    @mark_as_unsupported(lambda self_: False)\n    class Forks(_StepSize):"),
     ("c15-stringify-drops-field", "C15", MT, "        if isinstance(v, bool):\n            return f\"{k}={str(v)[0]}\"", "        if isinstance(v, bool):\n            return f\"{k}={str(v)[0]}\" if k != \"shuffle_d0\" else \"shuffle_d0=F\""),
     ("c16-index-plus-one", "C16", CD, "np.searchsorted(self.dataset_cum_lengths, index + 1)", "np.searchsorted(self.dataset_cum_lengths, index + 1, side=\"right\") if index % 7 == 6 else np.searchsorted(self.dataset_cum_lengths, index + 1)"),
     ("c17-forget-endpoints", "C17", RZ, "    if endpoints_as_open:\n        for color in (PixelColors.START, PixelColors.END):", "    if endpoints_as_open:\n        for color in (PixelColors.START,):"),
@@ -111,7 +111,11 @@ def main():
         for res in ex.map(run_one, ms):
             print(f"{res[2]:12s} {res[1]} {res[0]:32s} {res[3][:200]}", flush=True)
             out.append(res)
-    json.dump(out, open(os.path.join(ROOT, "tools", "selfmut_last.json"), "w"), indent=1)
+    cum_path = os.path.join(ROOT, "tools", "selfmut_results.json")
+    cum = json.load(open(cum_path)) if os.path.exists(cum_path) else {}
+    for mid, prop, status, detail in out:
+        cum[mid] = dict(property=prop, status=status, detail=detail[:300])
+    json.dump(cum, open(cum_path, "w"), indent=1, sort_keys=True)
     missed = [r for r in out if r[2] != "CAUGHT"]
     print(f"{len(out) - len(missed)}/{len(out)} caught")
     return 1 if missed else 0
